@@ -209,3 +209,65 @@ theorem injWriteFile_place (name ext : Str) (kind flag : Nat) (data : Bytes) (hn
           exact hmono _ rfl rfl (ih _ himg (by dsimp only; omega))
 
 end Moto.Disk
+
+namespace Moto.Disk
+open Moto
+
+/-! ### counting free blocks -/
+
+theorem filter_not_mem_take {α} [DecidableEq α] : ∀ (l : List α) (k : Nat), l.Nodup →
+    l.filter (fun x => decide (x ∉ l.take k)) = l.drop k := by
+  intro l
+  induction l with
+  | nil => intro k _; simp
+  | cons x xs ih =>
+    intro k hnd
+    have hx := (List.nodup_cons.mp hnd).1
+    have hxs := (List.nodup_cons.mp hnd).2
+    cases k with
+    | zero => simp
+    | succ k =>
+      simp only [List.take_succ_cons, List.drop_succ_cons, List.filter_cons, List.mem_cons, true_or, not_true_eq_false,
+        decide_false, Bool.false_eq_true, if_false]
+      rw [← ih k hxs]
+      apply List.filter_congr
+      intro y hy
+      have : y ≠ x := fun e => hx (e ▸ hy)
+      simp [this]
+
+/-- **storing a file takes exactly the blocks it needs from the free ones** -/
+theorem freeBlocks_newBat (bat : List Nat) (content : Bytes) (hlen : bat.length = 160) :
+    freeBlocks (newBat bat content) = freeBlocks bat - reqBlocks content.length := by
+  obtain ⟨_, hu1, hu8, _, _, _, _⟩ := size_law content.length
+  unfold freeBlocks
+  have hnl : (newBat bat content).length = bat.length := by unfold newBat; exact linkChain_length _ _ _
+  rw [hnl]
+  generalize hF : (List.range bat.length).filter (fun i => isFree (bat.getD i 0)) = F
+  have hch : chosen bat (reqBlocks content.length) = F.take (reqBlocks content.length) := by unfold chosen; rw [hF]
+  have hFnd : F.Nodup := by rw [← hF]; exact List.Pairwise.filter _ List.nodup_range
+  -- the free indices of the new table are the old ones minus the chosen ones
+  have hfilt : (List.range bat.length).filter (fun i => isFree ((newBat bat content).getD i 0))
+      = ((List.range bat.length).filter (fun i => isFree (bat.getD i 0))).filter (fun i => decide (i ∉ F.take (reqBlocks content.length))) := by
+    rw [List.filter_filter]
+    apply List.filter_congr
+    intro i hi
+    have hi' : i < bat.length := List.mem_range.mp hi
+    by_cases hc : i ∈ chosen bat (reqBlocks content.length)
+    · -- a chosen block is in use afterwards
+      have hlk : Linked (newBat bat content) (chosen bat (reqBlocks content.length)) (lastSectorsOf content.length) := by
+        unfold newBat
+        exact linkChain_linked _ bat _ (chosen_nodup bat _) (fun b hb => (chosen_free bat _ b hb).1)
+      have hused := linked_all_used _ _ hu8 _ hlk (fun x hx => by rw [← hlen]; exact (chosen_free bat _ x hx).1) i hc
+      rw [hused.1]
+      have hin : i ∈ F.take (reqBlocks content.length) := hch ▸ hc
+      have : decide (i ∉ F.take (reqBlocks content.length)) = false := by simp [hin]
+      rw [this, Bool.false_and]
+    · have hsame : (newBat bat content).getD i 0 = bat.getD i 0 := by unfold newBat; exact linkChain_other _ bat _ i 0 hc
+      rw [hsame]
+      have hnin : i ∉ F.take (reqBlocks content.length) := fun h => hc (hch ▸ h)
+      have : decide (i ∉ F.take (reqBlocks content.length)) = true := by simp [hnin]
+      rw [this, Bool.true_and]
+  rw [hfilt, hF]
+  rw [filter_not_mem_take F _ hFnd, List.length_drop]
+
+end Moto.Disk
